@@ -13,6 +13,13 @@
            every interleaving), invoker_map_order (both invokers, by generated shape).
            PARTIAL: the real scheduler is Python's concurrent.futures; the theorem is about the abstract pool
            and the bookkeeping around it; the real pool is exercised with n_jobs in {2,3,5,16,...}.
+        -> worker_environment ("for any worker count" also means: evaluated in the same environment.  What f
+           returns depends on its arguments and on the process-wide numeric environment E -- floating-point
+           control word, default dtype, error state.  A worker is spawned with the default environment e0 and runs
+           the initialiser, whose steps are GENERATED (worker_init_steps; the extractor refuses any statement of
+           worker.initalize, LensKitProcess.run or worker.py's top level it does not recognise); the steps leave
+           the environment alone and install the rebuilt context, so the pool returns map (f e0 c) xs: f in the
+           environment the caller has with n_jobs = 1.)
    * "batch recommendation, scoring and prediction return exactly one result per input key, in input order,
      equal to invoking the corresponding single-query operation for each key in turn"
         -> batch_is_sequential (under the library contract mapper g xs = map g xs), batch_over_pool (the
@@ -39,7 +46,7 @@
    * "and the worker pool is released afterwards" -> release_order (shape only; child processes and
      shared-memory segments are counted after every pool case by the harness). *)
 From Coq Require Import ZArith List Bool String.
-From LK Require Import Model.C12_shapes Gen.C12_shape Model.C12_pool Proofs.C12_pool Proofs.C12_layout Proofs.C12_shm Proofs.C12_batch.
+From LK Require Import Model.C12_shapes Gen.C12_shape Model.C12_pool Proofs.C12_pool Proofs.C12_env Proofs.C12_layout Proofs.C12_shm Proofs.C12_batch.
 Import ListNotations.
 Open Scope list_scope.
 
@@ -67,6 +74,12 @@ Theorem invoker_map_order : forall (A R : Type) (f : A -> res R) n_jobs (xs : li
   (n_jobs <> 1 -> complete (prun f xs sched) = true) -> invoker_map f n_jobs xs sched = map f xs.
 Proof. exact @invoker_map_l. Qed.
 Print Assumptions invoker_map_order.
+
+Theorem worker_environment : forall (E C A R : Type) (f : E -> C -> A -> res R) (c : C) (e0 : E) (xs : list A) (sched : list ev),
+  complete (prun (worker_call f (worker_init c e0)) xs sched) = true ->
+  pool_map (worker_call f (worker_init c e0)) xs sched = map (f e0 c) xs.
+Proof. exact worker_environment_l. Qed.
+Print Assumptions worker_environment.
 
 Theorem batch_is_sequential : forall (IV V : Type) (run_all : list string -> inputs -> res outs)
     (mapper : (key * IV -> res (key * outs)) -> list (key * IV) -> list (res (key * outs))),
@@ -157,6 +170,16 @@ Example c12_pool_nonvacuous :
   pool_map f xs [Claim 0; Claim 1; Finish 1] = [] /\
   consume (map f [5; 7; 8]) = ([10], Some 0).
 Proof. cbv zeta. repeat split; vm_compute; reflexivity. Qed.
+
+(* a task function whose value depends on the environment (0: subnormal numbers kept, 1: flushed): two workers
+   initialised from environment 0 return the values of environment 0; the hypothesis of worker_environment holds *)
+Example c12_env_nonvacuous :
+  let f := fun (e c x : nat) => if Nat.eqb e 0 then @Ok nat (c + x) else Ok 0 in
+  let sched := [Claim 0; Claim 1; Finish 1; Finish 0; Claim 1; Finish 1] in
+  complete (prun (worker_call f (worker_init 40 0)) [1; 2; 3] sched) = true /\
+  pool_map (worker_call f (worker_init 40 0)) [1; 2; 3] sched = [Ok 41; Ok 42; Ok 43] /\
+  map (f 1 40) [1; 2; 3] <> map (f 0 40) [1; 2; 3].
+Proof. cbv zeta. repeat split; try (vm_compute; reflexivity). vm_compute. discriminate. Qed.
 
 (* a batch of three keys (one duplicated) over a pipeline given as a table; all hypotheses hold *)
 Example c12_batch_nonvacuous :
